@@ -65,6 +65,10 @@ pub struct SimSpec {
 	/// fail at once with an I/O error although the child lives on (only generated for C04)
 	#[serde(default)]
 	pub wait_fail: Vec<u8>,
+	/// a killed child dies this many (virtual) ms after the kill was started, as a real process does: the job
+	/// task is then suspended inside its Stop for that long (0 everywhere except in C10's `arrival-during-kill`)
+	#[serde(default)]
+	pub kill_lag_ms: u8,
 }
 
 impl SimSpec {
@@ -397,7 +401,8 @@ impl TokioChildWrapper for SimChild {
 			World::rec(&mut g, Ev::StartKill { child: id, ok: false, alive });
 			return Err(io::Error::new(io::ErrorKind::InvalidInput, "invalid argument: can't kill an exited process"));
 		}
-		World::schedule_exit(&g.children[id], Instant::now(), 9);
+		let lag = std::time::Duration::from_millis(u64::from(g.spec.kill_lag_ms));
+		World::schedule_exit(&g.children[id], Instant::now() + lag, 9);
 		World::rec(&mut g, Ev::StartKill { child: id, ok: true, alive });
 		Ok(())
 	}
